@@ -94,22 +94,24 @@ def site_scenario(case):
                     proto.data_received(b'{"jsonrpc":"2.0","method":"m","params":[],"id":2}\n')
                     await sessions.settle(6)
                     hts = [x for x in asyncio.all_tasks(loop) if '_throttled_request' in getattr(x.get_coro(), '__qualname__', '')]
-                    queued = [x for x in hts if getattr(x.get_coro().cr_frame.f_locals.get('request'), 'args', None) is not None
-                              and x.get_coro().cr_frame.f_locals['request'] is not None and len(hts) == 2][-1:]
-                    if len(hts) != 2 or not queued:
+                    if len(hts) != 2:
                         return {'delivered': False, 'task': None, 'member': None, 'hung': False, 'note': 'handler tasks not found'}
-                    t = max(hts, key=lambda x: x.get_name())
+                    # the later of the two tasks is the queued one (asyncio numbers its tasks)
+                    t = max(hts, key=lambda x: int(x.get_name().rsplit('-', 1)[-1]) if x.get_name().rsplit('-', 1)[-1].isdigit() else 0)
                     await asyncio.sleep(case['cancel_at'] / 2)
                     s.cost = s.cost_hard_limit + 1000
                     s.recalc_concurrency()
                     await asyncio.sleep(case['cancel_at'] / 2)
                     delivered = not t.done()
+                    n0 = len(ft.written)
                     t.cancel()
                     await sessions.settle(10)
                     await asyncio.sleep(0.5)
                     return {'delivered': delivered, 'task': 'still running' if not t.done() else 'cancelled' if t.cancelled() else
                             ('normal' if t.exception() is None else type(t.exception()).__name__), 'member': None, 'hung': not t.done(),
-                            'limiter_target': s._incoming_concurrency.max_concurrent}
+                            'limiter_target': s._incoming_concurrency.max_concurrent,
+                            'went_on_after_cancel': [x for x in (('wrote a message' if len(ft.written) > n0 else None),
+                                                                  ('closed the connection' if ft.closing or ft.lost else None)) if x]}
                 proto.data_received({'request': b'{"jsonrpc":"2.0","method":"m","params":[],"id":1}\n',
                                      'notification': b'{"jsonrpc":"2.0","method":"m","params":[]}\n',
                                      'batch_notification': b'[{"jsonrpc":"2.0","method":"m","params":[]}]\n',
@@ -187,6 +189,9 @@ def site_scenario(case):
 def site_oracle(case, obs):
     if not obs['delivered']:
         return None
+    if obs.get('went_on_after_cancel'):
+        return (f"the task was cancelled from outside while in the library's {case['site']} ({case.get('form')}) and went on: it "
+                f"{' and '.join(obs['went_on_after_cancel'])} afterwards (the CancelledError was replaced or swallowed on the way)")
     if obs['task'] != 'cancelled':
         return (f"the task was cancelled from outside while in the library's {case['site']} ({case['wrap']} nesting{', limit lowered meanwhile' if case.get('lower') else ''}"
                 f"{', as the joining task of a group' if case['as_member'] else ''}) and ended {obs['task']} instead of cancelled")
